@@ -234,6 +234,7 @@ type childResult struct {
 	vios    []*payload
 	crashes []*payload
 	stalls  []string
+	stallAt []int
 	err     error
 }
 
@@ -317,6 +318,7 @@ func runChild(scenario string, seed int64, tier string, from, stride, count int,
 				}
 			case strings.HasPrefix(line, "STALL "):
 				res.stalls = append(res.stalls, line[6:])
+				res.stallAt = append(res.stallAt, lastRun)
 			case line == "DONE":
 				done = true
 			}
@@ -585,6 +587,11 @@ func cmdCheck(prop string, args []string) {
 	total := newAgg()
 	perScen := map[string]*agg{}
 	var vios, crashes []*payload
+	type stallRun struct {
+		scenario string
+		index    int
+	}
+	var stallRuns []stallRun
 	// regression tapes: the minimal reproducers of findings that were fixed are replayed
 	// first; one that reproduces again is reported like any other violation
 	regs, _ := filepath.Glob(filepath.Join(verifDir, "regress", prop+"-*.json"))
@@ -601,6 +608,9 @@ func cmdCheck(prop string, args []string) {
 		}
 		want := p.Violation.Signature
 		if i := strings.Index(want, "/panic/"); i >= 0 {
+			want = want[i+1:]
+		}
+		if i := strings.Index(want, "/stall/"); i >= 0 {
 			want = want[i+1:]
 		}
 		sigs, last, crash := replayOnce(&p, 1, false)
@@ -655,6 +665,9 @@ func cmdCheck(prop string, args []string) {
 			vios = append(vios, r.vios...)
 			crashes = append(crashes, r.crashes...)
 			stalls = append(stalls, r.stalls...)
+			for _, at := range r.stallAt {
+				stallRuns = append(stallRuns, stallRun{sn.Name, at})
+			}
 			if r.err != nil {
 				infra = append(infra, r.err.Error())
 			}
@@ -707,7 +720,7 @@ func cmdCheck(prop string, args []string) {
 		p.Violation.Signature = cp + "/" + p.Violation.Signature
 		addG(cp, p.Violation.Signature, p)
 	}
-	for _, s := range stalls {
+	for si, s := range stalls {
 		var st struct {
 			Class  string `json:"class"`
 			Stacks string `json:"stacks"`
@@ -718,15 +731,21 @@ func cmdCheck(prop string, args []string) {
 			addG(spec.DeadlockProperty, p.Violation.Signature, p)
 		} else if st.Class == "driver-lock-deadlock" {
 			otherProps["(lock deadlock in the driver; reported by the C06/C17 checks)"]++
+		} else if st.Class == "driver-busy-loop" && si < len(stallRuns) && crashProperty[stallRuns[si].scenario] != "" {
+			// a driver goroutine computing or allocating for the whole watchdog period
+			cp := crashProperty[stallRuns[si].scenario]
+			p := &payload{Scenario: stallRuns[si].scenario, BaseSeed: *seed, Index: stallRuns[si].index, Tier: *tier, Crash: st.Stacks,
+				Violation: &violation{Property: cp, Signature: cp + "/stall/driver-busy-loop", Message: "a driver goroutine kept computing/allocating for the whole watchdog period (runaway loop): " + busySite(st.Stacks)}}
+			addG(cp, p.Violation.Signature, p)
 		} else if st.Class == "synctest-mutex-artefact" {
 			// a goroutine waited for the simulator while holding a mutex another goroutine
 			// wanted (testing/synctest cannot see through sync.Mutex): the run is abandoned,
 			// it says nothing about the property; tolerated while rare
 			artefacts++
-			os.WriteFile(filepath.Join(verifDir, ".work", "last-stall.txt"), []byte(st.Stacks), 0o644)
+			os.WriteFile(filepath.Join(verifDir, ".work", "last-stall-"+st.Class+".txt"), []byte(st.Stacks), 0o644)
 		} else {
 			infra = append(infra, "stall ("+st.Class+"): a bubble froze in real time; goroutine dump in the child's output")
-			os.WriteFile(filepath.Join(verifDir, ".work", "last-stall.txt"), []byte(st.Stacks), 0o644)
+			os.WriteFile(filepath.Join(verifDir, ".work", "last-stall-"+st.Class+".txt"), []byte(st.Stacks), 0o644)
 		}
 	}
 
@@ -854,6 +873,9 @@ func finalize(ex *payload, sig string, budget time.Duration, seed int64, tier st
 	if strings.Contains(sig, "/panic/") {
 		rawSig = sig[strings.Index(sig, "/panic/")+1:]
 	}
+	if strings.Contains(sig, "/stall/") {
+		rawSig = sig[strings.Index(sig, "/stall/")+1:]
+	}
 	if strings.HasSuffix(sig, "/lock-deadlock") {
 		p.ReplaysOK = "not replayed (stall)"
 		return &p
@@ -930,6 +952,9 @@ func cmdReplay(args []string) {
 	if i := strings.Index(want, "/panic/"); i >= 0 {
 		raw = want[i+1:]
 	}
+	if i := strings.Index(want, "/stall/"); i >= 0 {
+		raw = want[i+1:]
+	}
 	sigs, last, crash := replayOnce(&p, 1, true)
 	cleanup()
 	got := ""
@@ -998,4 +1023,33 @@ func racePass(scenario string, seed int64, total *agg) []string {
 	total.probes["race-pass.reports"] += len(reports)
 	fmt.Printf("vcheck: race pass: %d runs of scenario %s under the race detector at GOMAXPROCS=4, %d report(s) involving driver code\n", runs, scenario, len(reports))
 	return reports
+}
+
+// busySite names the driver frames of the goroutine that was busy when the watchdog fired.
+func busySite(stacks string) string {
+	for _, blk := range strings.Split(stacks, "\n\n") {
+		head := blk
+		if nl := strings.IndexByte(blk, '\n'); nl >= 0 {
+			head = blk[:nl]
+		}
+		if !strings.Contains(head, "synctest bubble") || !(strings.Contains(head, "[running") || strings.Contains(head, "[runnable")) {
+			continue
+		}
+		var fns []string
+		for _, l := range strings.Split(blk, "\n") {
+			if strings.HasPrefix(l, "github.com/gocql/gocql.") {
+				if i := strings.LastIndex(l, "("); i > 0 {
+					l = l[:i]
+				}
+				fns = append(fns, strings.TrimPrefix(l, "github.com/gocql/gocql."))
+				if len(fns) == 3 {
+					break
+				}
+			}
+		}
+		if len(fns) > 0 {
+			return strings.Join(fns, " <- ")
+		}
+	}
+	return "?"
 }
